@@ -548,6 +548,13 @@ func init() {
 			}
 			return Tuple{p.bytesToSlice(b), Iface{}}, true
 		}
+		if i.T != nil {
+			if f := p.lookupMethodByName(i.T, "MarshalJSON"); f != nil {
+				// a json.Marshaler: its output is taken as is (validity of the
+				// produced JSON is not re-checked)
+				return p.callFn(nil, f, []Value{i.V}), true
+			}
+		}
 		if ft, ok := i.V.(*smt.Term); ok && ft.Sort.K == smt.KFP {
 			// a float that depends on a few input bytes only (digits of a
 			// literal): fork over its feasible values and format natively
@@ -1167,11 +1174,80 @@ func fixedNow() time.Time { return time.Date(2024, 6, 24, 10, 17, 32, 0, time.UT
 func (p *Path) nativeCall(fn *ssa.Function, args []Value) (Value, bool) {
 	if rf, ok := nativeFuncs[fn.String()]; ok {
 		if !allConcrete(args) {
-			p.unsupported("symbolic argument to native %s", fn)
+			cargs, ok := p.concretizeArgs(args)
+			if !ok {
+				if fn.String() == "time.Parse" {
+					// text that does not range over a small domain: what it
+					// parses to is stdlib behaviour; either an error or some time
+					p.note("stub: time.Parse(symbolic text) = error, or a fixed instant")
+					if p.choose(make([]*smt.Term, 2)) == 0 {
+						return Tuple{&Native{V: time.Time{}}, p.errorsNew("parsing time: cannot parse")}, true
+					}
+					return Tuple{&Native{V: time.Date(2024, 2, 29, 13, 14, 15, 123456789, time.FixedZone("", 3600))}, Iface{}}, true
+				}
+				p.unsupported("symbolic argument to native %s", fn)
+			}
+			args = cargs
 		}
 		return p.nativeInvoke(rf, fn, args), true
 	}
 	return nil, false
+}
+
+// concretizeArgs forks over the values of symbolic scalar / string arguments
+// that range over a small domain.
+func (p *Path) concretizeArgs(args []Value) ([]Value, bool) {
+	out := make([]Value, len(args))
+	for i, a := range args {
+		switch v := a.(type) {
+		case *SymStr:
+			s, ok := p.concretizeString(v)
+			if !ok {
+				return nil, false
+			}
+			out[i] = s
+		case *smt.Term:
+			t := p.simplify(v)
+			vals := p.enumValues(t)
+			if t.IsConst() {
+				vals = []uint64{t.U}
+			}
+			if vals == nil || len(vals) == 0 {
+				return nil, false
+			}
+			conds := make([]*smt.Term, len(vals))
+			for k, u := range vals {
+				switch t.Sort.K {
+				case smt.KBool:
+					conds[k] = p.C.Eq(t, p.C.Bool(u == 1))
+				case smt.KFP:
+					conds[k] = p.C.Eq(t, p.C.FP(math.Float64frombits(u)))
+				default:
+					conds[k] = p.C.Eq(t, p.C.BV(u, t.Sort.W))
+				}
+			}
+			u := vals[p.chooseVerified(conds)]
+			switch t.Sort.K {
+			case smt.KBool:
+				out[i] = u == 1
+			case smt.KFP:
+				out[i] = math.Float64frombits(u)
+			default:
+				// signed 64-bit by default (ints); narrower terms are unsigned bytes etc.
+				if t.Sort.W == 64 {
+					out[i] = int64(u)
+				} else {
+					out[i] = u
+				}
+			}
+		default:
+			if isSym(a) {
+				return nil, false
+			}
+			out[i] = a
+		}
+	}
+	return out, true
 }
 
 // nativeMethod dispatches a method call on a Native receiver via reflection.
@@ -1217,7 +1293,11 @@ func (p *Path) nativeMethod(fn *ssa.Function, args []Value) (Value, bool) {
 			}
 			return fromTerm(p.C.Apply(fmt.Sprintf("rematch_%x_%d", h, len(ts)), smt.BoolSort, ts...), types.Typ[types.Bool]), true
 		}
-		p.unsupported("symbolic argument to native method %s", fn)
+		cargs, ok := p.concretizeArgs(args[1:])
+		if !ok {
+			p.unsupported("symbolic argument to native method %s", fn)
+		}
+		return p.nativeInvoke(m, fn, cargs), true
 	}
 	return p.nativeInvoke(m, fn, args[1:]), true
 }
